@@ -9,19 +9,11 @@ from . import lang, langgen
 # spec feature tag -> id of the known finding it triggers (known_findings.json / known/*.json).  A program whose
 # execution in the spec raises one of these tags is kept out of the clean stratum; each tag has canonical probes.
 TAG2FINDING = {
-    "floordiv-opposite-signs": "floordiv-c-semantics",
-    "mod-opposite-signs": "mod-c-semantics",
-    "truediv-of-ints": "truediv-int-operands",
-    "float-floordiv-or-mod": "float-floordiv-mod",
-    "pow": "pow-operator-verbatim",
     "boolop-yields-operand": "boolop-yields-bool",
-    "continue": "continue-dropped",
     "chained-cmp-call": "chained-cmp-double-eval",
-    "macro-arg-call": "macro-double-eval",
     "list-alias-mutation": "list-alias-mutation",
     "list-alias-created": "list-alias-shallow-copy",
     "list-created-in-loop": "list-created-in-loop-leaks",
-    "list-append-float": "list-append-float-expr",
     "loop-born-carried": "loop-born-variable-reset",
     "len-after-nested-mutation": "len-folded-stale",
     "membership": None,          # rejected by the transpiler: allowed
